@@ -18,6 +18,7 @@ inductive SV where
   | raw (b : Bytes)
   | cs
   | ss
+  | cs2      -- a marshalled client state of ANOTHER type (TSS)
 
 structure St where
   store : List (Bytes × SV)
@@ -81,9 +82,10 @@ def showSV : SV → String
   | .raw b => hex b
   | .cs => "c"
   | .ss => "s"
+  | .cs2 => "t"
 
 def parseSV (s : String) : Option SV :=
-  if s = "c" then some .cs else if s = "s" then some .ss else (unhex s).map .raw
+  if s = "c" then some .cs else if s = "s" then some .ss else if s = "t" then some .cs2 else (unhex s).map .raw
 
 def okList (l : List String) : String := if l.isEmpty then "ok -" else "ok " ++ joinWith "," l
 
@@ -154,6 +156,36 @@ def delSigners (name : Bytes) : List (Bytes × SV) → St → St × String
         | none => (st, "bad-op")
         | some k => delSigners name r { st with store := storeDel (clientStorePrefixOf C name ++ k) st.store }
 
+/-- ToggleClient / UpgradeClient of the client keeper -/
+def clientOp (st : St) (op a r h t : String) : St × String :=
+  -- ToggleClient / UpgradeClient of the client keeper between the Tendermint client state (latest height r-h, metadata
+  -- written with block time t) and a TSS client state
+    match unhex a, u64? r, u64? h, u64? t with
+    | some a, some r, some h, some t =>
+      let p := clientStorePrefixOf C a
+      match storeGet (p ++ C.clientState) st.store with
+      | none => (st, "err")
+      | some cur =>
+        let isTm := match cur with | .cs => true | _ => false
+        let isTss := match cur with | .cs2 => true | _ => false
+        if !isTm && !isTss then (st, "panic")          -- MustUnmarshalClientState on something else
+        else
+          -- the client state after the operation: toggle switches the type, upgrade keeps it
+          let toTm := if op = "ctoggle" then isTss else isTm
+          let st1 : St := if op = "ctoggle" then { st with store := storeClear p st.store } else st
+          if toTm then
+            match render HostKeys.consensusStateKey [.h r h], render HostKeys.tm_processedTimeKey [.h r h], render HostKeys.tm_iterationKey [.h r h] with
+            | some ck, some pk, some ik =>
+              -- toggle: SetClientState, Initialize (metadata), SetClientConsensusState; upgrade: UpgradeState (metadata), SetClientState, …
+              let st2 := set st1 (p ++ C.clientState) .cs
+              let st2 := set st2 (p ++ pk) (.raw (be8 t))
+              let st2 := set st2 (p ++ ik) (.raw ck)
+              let st2 := set st2 (p ++ ck) .ss
+              (st2, "ok")
+            | _, _, _ => (st, "bad-op")
+          else (set st1 (p ++ C.clientState) .cs2, "ok")
+    | _, _, _, _ => (st, "bad-op")
+
 def step1 (st : St) (line : String) : St × String :=
   match fields line with
   | ["reset"] => (fresh, "ok")
@@ -197,6 +229,8 @@ def step1 (st : St) (line : String) : St × String :=
         (st, if v ≠ [] && TM.Merkle.proofKey Generated.Merkle.codec pre path == some key then "ok" else "err")
       | _, _ => (st, "bad-op")
     | _, _, _, _, _, _ => (st, "bad-op")
+  | ["ctoggle", a, r, h, t] => clientOp st "ctoggle" a r h t
+  | ["cupgrade", a, r, h, t] => clientOp st "cupgrade" a r h t
   | ["heightstr", r, h] =>
     match u64? r, u64? h with
     | some r, some h => (st, match render Parsers.heightString [.h r h] with | some s => hex s | none => "bad-op")
@@ -466,6 +500,7 @@ def step1 (st : St) (line : String) : St × String :=
       | some a =>
         match kv.2 with
         | .cs => .ok (some (hex a))
+        | .cs2 => .ok (some (hex a))
         | _ => .panic "MustUnmarshalClientState"))
   | ["tmpt", a] =>
     match unhex a with
